@@ -125,7 +125,7 @@ ReconnectPrompt == (pc = "holding" /\ ~connected /\ ~stopped) => now <= discAt +
 \* nothing is reserved once the context has ended
 NoAttemptAfterStop == \A i \in 1..Len(att) : stopAt # None => att[i].t <= stopAt
 \* the hook does not sleep on once the context has ended (the 10 s pause for an unknown relay and a Reserve under way excepted)
-StopsPrompt == (stopped /\ pc \in {"backoff", "holding"}) => now = stopAt
+StopsPrompt == (stopped /\ pc \in {"backoff", "holding"}) => now = stopAt \/ now = Last(att).endAt
 \* relay routes exist only for the peers this node dials (the smaller peer ID dials), and once there they do not lapse while
 \* the router runs
 RoutesOnlyDialed == \A p \in Peers : routes[p] # None => p \in dial
